@@ -85,8 +85,7 @@ def run_node(tier):
                  {"op": "NewChannel", "d": 1}, {"op": "Setup", "d": 1}, {"op": "NewChannel", "d": 2}]]
     rng = random.Random(vlib.seed())
     pairs = [(a, b) for i, a in enumerate(reqs) for b in reqs[i:]]
-    if quick:
-        pairs = rng.sample(pairs, min(len(pairs), 70))
+    # (every pair, also in the quick tier: a sample missed Setup||Forget on one stub; all pairs take < 30 s)
     cases = [{"prefix": p, "a": a, "b": b} for p in (prefixes[1:] if quick else prefixes) for a, b in pairs]
     cf = os.path.join(d, "cases.ndjson")
     with open(cf, "w") as f:
